@@ -65,6 +65,7 @@ pub struct IoShared {
     broker: u64,
     log: Vec<String>,
     cancel: bool,
+    cancel_unconsumed: bool,
     read_waiting: bool,
     io_count: u64,
     livelock: bool,
@@ -261,8 +262,11 @@ impl embedded_io_async::Read for ScriptIo {
                     Poll::Ready(Ok(Vec::new()))
                 }
                 3 => {
-                    s.consume();
+                    // "this future is dropped here": the executor consumes the event when it drops the future.  Under
+                    // `with_deadline` a timer that has expired wins this very poll instead; the read future is dropped by
+                    // the select, the operation goes on, and the event is still there for the next await point.
                     s.cancel = true;
+                    s.cancel_unconsumed = true;
                     Poll::Pending
                 }
                 _ => {
@@ -305,6 +309,7 @@ impl embedded_io_async::Write for ScriptIo {
             }
             let (k, amt) = s.next_ev();
             s.consume();
+            s.cancel_unconsumed = false;
             match k {
                 1 => {
                     s.log.push(format!("w {} fail", len));
@@ -356,6 +361,7 @@ impl embedded_io_async::Write for ScriptIo {
             }
             let (k, _) = s.next_ev();
             s.consume();
+            s.cancel_unconsumed = false;
             match k {
                 1 => {
                     s.log.push("f fail".into());
@@ -393,6 +399,7 @@ fn exec<F: Future>(shared: &Shared, fut: F) -> Option<F::Output> {
             let mut s = shared.borrow_mut();
             s.read_waiting = false;
             s.cancel = false;
+            s.cancel_unconsumed = false;
         }
         match fut.as_mut().poll(&mut cx) {
             Poll::Ready(v) => return Some(v),
@@ -402,6 +409,10 @@ fn exec<F: Future>(shared: &Shared, fut: F) -> Option<F::Output> {
                     (s.cancel, s.read_waiting, s.inq.first().map(|(t, _)| *t))
                 };
                 if cancel {
+                    let mut s = shared.borrow_mut();
+                    if s.cancel_unconsumed {
+                        s.consume();
+                    }
                     return None;
                 }
                 if !waiting {
@@ -577,6 +588,7 @@ pub fn run(t: &mut Toks) -> Result<String, Bad> {
         broker: 0,
         log: Vec::new(),
         cancel: false,
+        cancel_unconsumed: false,
         read_waiting: false,
         io_count: 0,
         livelock: false,
